@@ -405,7 +405,7 @@ class Harness:
                 return
         if key in [v[0] for v in self.violations]:
             return
-        d = os.path.join(VERIF, 'replays', self.pid)
+        d = os.path.join(os.environ.get('VERIF_REPLAY_DIR') or os.path.join(VERIF, 'replays'), self.pid)
         os.makedirs(d, exist_ok=True)
         h = hashlib.sha1(key.encode()).hexdigest()[:10]
         path = os.path.join(d, '%s.json' % h)
@@ -465,8 +465,9 @@ class Harness:
         ev = {'property_id': self.pid, 'tier': self.tier, 'seed': self.seed, 'level': level, 'coverage': cov,
               'assumptions': self.assumptions, 'wall_s': round(time.time() - self.t0, 2),
               'violations': len(self.violations)}
-        os.makedirs(os.path.join(VERIF, 'evidence'), exist_ok=True)
-        with open(os.path.join(VERIF, 'evidence', '%s.json' % self.pid), 'w') as f:
+        evdir = os.environ.get('VERIF_EVIDENCE_DIR') or os.path.join(VERIF, 'evidence')      # (redirected by the seed-matrix tool only)
+        os.makedirs(evdir, exist_ok=True)
+        with open(os.path.join(evdir, '%s.json' % self.pid), 'w') as f:
             json.dump(ev, f, indent=1, default=str)
         print('[%s/%s] obligations=%d discharged=%d inconclusive=%d guards=%d/%d paths=%d not_encoded=%d wall=%.1fs solver=%.1fs'
               % (self.pid, self.tier, len(proves), len(discharged), len(inconclusive),
